@@ -139,6 +139,8 @@ func runC16(c *Ctx) {
 		}
 	}
 
+	importRulesNoRec(c, runC06, map[string]string{"C06.R2": "C16.R6", "C06.R3": "C16.R6"}, map[string]string{"C16.R6": "the basic rule the option is derived from is selected by the documented admission table: an exception is never discarded by a referrer's $genericblock/$urlblock (shared with C06.R2/R3)"})
+
 	// ---------- R2 ----------
 	a.rule = "C16.R2"
 	if isEn := a.method("rules", "NetworkRule", "IsOptionEnabled"); isEn != nil {
